@@ -19,6 +19,10 @@ P('C12','gate dominance on the SSA control-flow graph + decision-structure rules
   "Decides on every path that each upstream-contact site (and the redirect answer) in HTTPProxy.ServeHTTP is dominated by AccessDeniedHTTP()==false and Authorized()==true on the looked-up target, that every dial in every tcp.Handler is dominated by AccessDeniedTCP()==false on the target whose address is dialled, that the deny edges answer 403/401 and return, that the decision functions fail closed (nil peer IP with rules, unknown scheme, unparsable rule => deny-all) and that denyByIP's allow/deny structure and the X-Forwarded-For loop cannot admit early. CIDR arithmetic and credential comparison are library behaviour and not decided.",
   COMMON_NOTE)
 
+P('C06','shared-state discipline: interprocedural freshness + must-hold locksets over the serving-reachable call graph; atomic-consistency and publish-after-build rules',
+  "Decides, for every function reachable from a per-request entry point and for every schedule (no schedule is needed), the structural necessary conditions of race freedom: no unsynchronised store into a structure that lives across requests, no plain access to an atomically accessed field, round-robin index taken from the atomic RMW result, nothing written after a table is published, one table snapshot per lookup, glob-cache eviction/size/double-check structure, no MustCompile/zero modulus on the lookup path. Exact per-target pick counts under interleavings are arithmetic over histories and are not decided beyond these necessary conditions.",
+  COMMON_NOTE)
+
 checks=[]; na=[]
 for p in props:
     id=p['id']
